@@ -68,7 +68,7 @@ def check_frame_writer(ctx, rule, P, fn_key, msg_param, sink_pred, sink_desc):
     )
 
 
-def check_frame_reader(ctx, rule, P, fn_key, buf_desc):
+def check_frame_reader(ctx, rule, P, fn_key, buf_desc, strict=True):
     """Reader is the inverse by shape: n = peek(P); L = Uint::try_from(P[..n]).0; require L <= |P| - n;
     message = P[n .. n+L]; otherwise a constant-0 flag."""
     fn = ctx.need_fn(rule, fn_key, P)
@@ -107,8 +107,10 @@ def check_frame_reader(ctx, rule, P, fn_key, buf_desc):
     if ab:
         x, y = ab
         L = y if x == n else (x if y == n else None)
-    decoded = L is not None and any(s.op == "call" and B.cname(s) == "TryFrom::try_from" for s in subterms(L)) and not any(s.op == "call" and B.cname(s) in ("core::min", "Ord::min", "cmp::min", "usize::min", "num::<impl usize>::min", "Ord::clamp") for s in subterms(L))
+    decoded = L is not None and any(s.op == "call" and B.cname(s) == "TryFrom::try_from" for s in subterms(L)) and not strict or L is not None and any(s.op == "call" and B.cname(s) == "TryFrom::try_from" for s in subterms(L)) and not any(s.op == "call" and B.cname(s) in ("core::min", "Ord::min", "cmp::min", "usize::min", "num::<impl usize>::min", "Ord::clamp") for s in subterms(L))
     ctx.ob(rule, fn_key + "/slice", start_ok and decoded and _same_buf(sl.args[0], buf), "message = %s[n .. n+L] with L the decoded length itself (no clamping): range=%s" % (buf_desc, show(strip_sites(sl.args[1]), 5)), where=where(fn, sl.bb))
+    if not strict:
+        return
     # the bound: L <= |P| - n dominates the slice
     lits = G.path_literals(ev, sl.bb, P)
     bound = False
